@@ -334,7 +334,7 @@ def _sensitivity_task(task):
             # Generate workload with this seed
             print(f"Generating workload w{task.workload_index}.csv (seed={task.seed})...")
             params_with_seed = params.copy()
-            params_with_seed['seed'] = task.seed
+            params_with_seed['random_seed'] = task.seed
 
             workload_gen = WorkloadGenerator(**params_with_seed)
             trace_generator = WorkloadTraceGenerator(
